@@ -474,6 +474,7 @@ func (p PtrV) elemKeyOf() string {
 func (e *Engine) subRef(t types.Type, i int, ref *Term) *Term {
 	name := "sub:" + fieldKey(t, i)
 	c := e.C
+	subNames[Sanitize(name)] = fieldKey(t, i)
 	if !e.subAx[name] {
 		e.subAx[name] = true
 		r := c.BoundVar("r", Int)
@@ -757,6 +758,9 @@ func (e *Engine) isFreshTerm(t *Term) bool {
 	return false
 }
 
+// subNames maps the (sanitised) name of a sub-object function to the heap key of its field.
+var subNames = map[string]string{}
+
 // rootOf is the allocation unit an address belongs to: elements of arrays and
 // embedded structs have the root of their container.
 func (e *Engine) rootOf(r *Term) *Term {
@@ -895,33 +899,26 @@ func (e *Engine) mergeVal(g *Term, a, b Value) Value {
 func (e *Engine) mergeStates(ga *Term, a *State, gb *Term, b *State) *State {
 	c := e.C
 	out := &State{}
-	out.pc = c.Or(a.pc, b.pc)
+	out.pc = e.orFactored(a.pc, b.pc)
 	// selector: a's pc distinguishes (paths are disjoint by construction)
-	g := a.pc
+	g := e.selector(a.pc, b.pc)
 	_ = ga
 	_ = gb
 	out.cells = map[*Cell]Value{}
-	for k, va := range a.cells {
-		if vb, ok := b.cells[k]; ok {
+	for _, k := range sortedCells(a.cells, b.cells) {
+		va, oka := a.cells[k]
+		vb, okb := b.cells[k]
+		switch {
+		case oka && okb:
 			out.cells[k] = e.mergeVal(g, va, vb)
-		} else {
+		case oka:
 			out.cells[k] = va
-		}
-	}
-	for k, vb := range b.cells {
-		if _, ok := a.cells[k]; !ok {
+		default:
 			out.cells[k] = vb
 		}
 	}
 	out.heap = map[string]*Term{}
-	keys := map[string]bool{}
-	for k := range a.heap {
-		keys[k] = true
-	}
-	for k := range b.heap {
-		keys[k] = true
-	}
-	for k := range keys {
+	for _, k := range sortedStateKeys(a.heap, b.heap) {
 		so := e.heapSorts[k]
 		ta, tb := e.heapGet(a, k, so), e.heapGet(b, k, so)
 		out.heap[k] = c.Ite(g, ta, tb)
@@ -952,17 +949,16 @@ func (e *Engine) mergeStates(ga *Term, a *State, gb *Term, b *State) *State {
 		}
 	}
 	out.held = map[string]*Term{}
-	for k, va := range a.held {
-		vb, ok := b.held[k]
-		if !ok {
+	for _, k := range sortedStateKeys(a.held, b.held) {
+		va, oka := a.held[k]
+		vb, okb := b.held[k]
+		if !oka {
+			va = c.False()
+		}
+		if !okb {
 			vb = c.False()
 		}
 		out.held[k] = c.Ite(g, va, vb)
-	}
-	for k, vb := range b.held {
-		if _, ok := a.held[k]; !ok {
-			out.held[k] = c.Ite(g, c.False(), vb)
-		}
 	}
 	out.snap = map[string]*State{}
 	for k, v := range a.snap {
@@ -1042,4 +1038,43 @@ func (e *Engine) noteWrite(s *State, key string, w wtarget) {
 	if e.cur != nil && e.dry == 0 {
 		e.cur.noteWrite(s, key, w)
 	}
+}
+
+func sortedStateKeys(ms ...map[string]*Term) []string {
+	seen := map[string]bool{}
+	var ks []string
+	for _, m := range ms {
+		for k := range m {
+			if !seen[k] {
+				seen[k] = true
+				ks = append(ks, k)
+			}
+		}
+	}
+	sort.Strings(ks)
+	return ks
+}
+
+func sortedSortKeys(m map[string]*Sort) []string {
+	var ks []string
+	for k := range m {
+		ks = append(ks, k)
+	}
+	sort.Strings(ks)
+	return ks
+}
+
+func sortedCells(ms ...map[*Cell]Value) []*Cell {
+	seen := map[*Cell]bool{}
+	var cs []*Cell
+	for _, m := range ms {
+		for c := range m {
+			if !seen[c] {
+				seen[c] = true
+				cs = append(cs, c)
+			}
+		}
+	}
+	sort.Slice(cs, func(i, j int) bool { return cs[i].ID < cs[j].ID })
+	return cs
 }
